@@ -544,7 +544,7 @@ func harnessDir() string {
 // TestC13MigrationCrash — a kill during the migrating Open leaves the old or the new format, never a mix.
 func TestC13MigrationCrash(t *testing.T) {
 	rec := vt.For("C13")
-	rec.Rule("migration under SIGKILL: a version-0/1 database (realistic ids, 0-300 nonces, nodes with trial balances and peer sets) is opened by a child process that is killed after a generated delay (0-30 ms) - before, during or after the migrating transaction; the parent then inspects the raw keys: either the old version with EVERY key unchanged, or the current version with every non-nonce key unchanged and no nonce key left; then a normal Open must succeed and preserve the non-nonce keys; non-trivial = kill landed before the child reported READY; distinct by (version, counts, delay)")
+	rec.Rule("migration under SIGKILL: a version-0/1 database (realistic ids, 0-300 nonces, nodes with trial balances and peer sets) is opened by a child process that is killed after a generated delay (0-150 ms) - before, during or after the migrating transaction; the parent then inspects the raw keys: either the old version with EVERY key unchanged, or the current version with every non-nonce key unchanged and no nonce key left; then a normal Open must succeed and preserve the non-nonce keys; non-trivial = kill landed before the child reported READY; distinct by (version, counts, delay)")
 	child, err := crashChildBinary()
 	if err != nil {
 		t.Fatal(err)
@@ -574,7 +574,7 @@ func TestC13MigrationCrash(t *testing.T) {
 		st.Close()
 		setRawVersionDefault(rt, db, version)
 		before := dumpKeysDefault(rt, db)
-		delay := time.Duration(rapid.IntRange(0, 30000).Draw(rt, "delayMicros")) * time.Microsecond
+		delay := time.Duration(rapid.IntRange(0, 150000).Draw(rt, "delayMicros")) * time.Microsecond
 		cmd := exec.Command(child, db, "-", "migrate-only")
 		stdout, _ := cmd.StdoutPipe()
 		if err := cmd.Start(); err != nil {
